@@ -13,7 +13,8 @@ RULE = ('Histories (lists of operations, shrunk as one value) over a 3-ary name 
         'and app.NDNApp.express_interest inside their real main_loop() on a virtual-time loop with an in-memory face. Ops: '
         'express(name, lifetime in {5,50,4000 ms}, CanBePrefix, implicit digest none/right/wrong, validator latency relative to '
         'the deadline, verdict), data(name), nack(interest or name, reason), advance(ms | to deadline of i -1/0/+1 ms), '
-        'cancel(i), shutdown; packets delivered by await or create_task. Oracle: reference pending-Interest model computing '
+        'cancel(i), shutdown; packets delivered by await or create_task; the result awaited at once or some time after express(); '
+        'one InterestParam object optionally re-used for every expression; an optional second application instance. Oracle: reference pending-Interest model computing '
         'the allowed outcome set of every Interest from the event log (ties within 1 ms of a deadline allow both neighbours); '
         'plus: _receive never raises, no unhandled loop error, nothing left pending, late packets are inert, a fresh Interest on '
         'every used name still completes. Non-trivial = >=2 Interests pending concurrently on same/nested names AND one of '
